@@ -78,6 +78,8 @@ impl Point {
         match self.target {
             "fn" => "pub fn the_fn(_deps: &impl ::core::any::Any, x: i32) -> i32 { x }",
             "mod" => "pub mod m { pub fn the_fn(_deps: &impl ::core::any::Any, x: i32) -> i32 { x } }",
+            // a concrete dependency: the generated trait carries a *nested* entrait invocation of its own
+            "fn_concrete" => "pub fn the_fn(_deps: &Conf, x: i32) -> i32 { x }",
             _ => "pub trait TheTrait { fn the_fn(&self, x: i32) -> i32; }",
         }
     }
@@ -109,7 +111,7 @@ pub fn lattice() -> Vec<Point> {
             for unimock in tri(true) {
                 for mock_api in [false, true] {
                     for mockall in tri(true) {
-                        for target in ["fn", "mod", "trait"] {
+                        for target in ["fn", "mod", "trait", "fn_concrete"] {
                             let exports = if target == "trait" { vec![None] } else { tri(true) };
                             for export in exports {
                                 out.push(Point { export_macro, feature, unimock, mock_api, mockall, export, target });
@@ -173,10 +175,33 @@ fn find_trait(file: &syn::File) -> Option<&syn::ItemTrait> {
     rec(&file.items)
 }
 
+/// The leaf trait of a concrete-dependency fn carries `#[::entrait::entrait(..)]` itself: expand that nested invocation the
+/// way the facade would (feature -> `_unimock` variant) and return every mock attribute the final trait ends up with.
+fn final_trait_attrs(p: &Point, tr: &syn::ItemTrait) -> Result<Vec<syn::Attribute>, String> {
+    let nested = tr.attrs.iter().position(|a| a.path().segments.last().map(|s| s.ident == "entrait").unwrap_or(false));
+    let Some(pos) = nested else { return Ok(tr.attrs.clone()) };
+    let mut inner = tr.clone();
+    let attr = inner.attrs.remove(pos);
+    let args = match &attr.meta {
+        syn::Meta::List(l) => l.tokens.clone(),
+        _ => proc_macro2::TokenStream::new(),
+    };
+    let variant = if p.feature { "entrait_unimock" } else { "entrait" };
+    match e1::expand_ts(variant, args, inner.to_token_stream()) {
+        e1::Expansion::Tokens(ts) => {
+            let file: syn::File = syn::parse2(ts).map_err(|e| format!("nested expansion does not parse: {e}"))?;
+            let t2 = find_trait(&file).ok_or("no trait `TheTrait` in the nested expansion")?;
+            Ok(t2.attrs.clone())
+        }
+        e1::Expansion::Panic(m) => Err(format!("HARNESS: nested expansion panicked: {m}")),
+    }
+}
+
 pub fn judge_tokens(p: &Point, ts: proc_macro2::TokenStream) -> Result<(), String> {
     let file: syn::File = syn::parse2(ts).map_err(|e| format!("expansion does not parse: {e}"))?;
     let tr = find_trait(&file).ok_or("no trait `TheTrait` in the expansion")?;
-    let ((uni, uni_gated), (mal, mal_gated)) = observe(&tr.attrs)?;
+    let attrs = final_trait_attrs(p, tr)?;
+    let ((uni, uni_gated), (mal, mal_gated)) = observe(&attrs)?;
     let want = p.expect();
     if uni != want.unimock_emitted {
         return Err(format!("unimock derivation is {} but should be {}", if uni { "attached" } else { "absent" }, if want.unimock_emitted { "attached" } else { "absent" }));
@@ -235,7 +260,7 @@ fn e2_case(p: &Point, id: &str) -> String {
     let attr = p.attr(id.len());
     let mut s = String::from("#![allow(warnings)]\nuse ::core::marker::PhantomData;\n");
     // (the API of a single fn is a unit struct `TheMock`; for modules and traits it is a module `TheMock` of per-method structs)
-    let (fb, api_ty) = if p.target == "fn" {
+    let (fb, api_ty) = if p.target == "fn" || p.target == "fn_concrete" {
         ("mod fallback { pub struct MockTheTrait; pub struct TheMock; }\nuse fallback::*;\n", "TheMock")
     } else {
         ("mod fallback { pub struct MockTheTrait; pub mod TheMock { pub struct the_fn; } }\nuse fallback::*;\n", "TheMock::the_fn")
@@ -247,11 +272,19 @@ fn e2_case(p: &Point, id: &str) -> String {
             fb.replace('\n', "\n    "),
             probes.replace('\n', "\n    ")
         )),
+        "fn_concrete" => s.push_str(&format!("pub struct Conf;\n{fb}#[{mac}({attr})]\n{}\n{probes}", p.item())),
         _ => s.push_str(&format!("{fb}#[{mac}({attr})]\n{}\n{probes}", p.item())),
     }
     s.push_str("struct Probe<T>(PhantomData<T>);\ntrait Fallback { fn has(&self) -> bool { false } }\nimpl<T> Fallback for Probe<T> {}\nimpl<T: TheTrait> Probe<T> { fn has(&self) -> bool { true } }\n");
     // the unimock derivation is observed through the named API when there is one, else (traits) through `Unimock: TheTrait`
-    let uni_probe = if p.mock_api {
+    let uni_probe = if p.target == "fn_concrete" {
+        // no blanket impl exists for a concrete-dependency fn: `Unimock: TheTrait` holds iff a unimock derivation is active
+        if p.feature {
+            "Probe::<::unimock::Unimock>(PhantomData).has()"
+        } else {
+            "false"
+        }
+    } else if p.mock_api {
         "probe_api()"
     } else if p.target == "trait" && p.feature {
         "Probe::<::unimock::Unimock>(PhantomData).has()"
@@ -327,7 +360,7 @@ fn e2_leg(ctx: &mut Ctx, points: &[Point]) -> bool {
                 }
                 let obs = out.ran.get(&id).map(|(_, m)| m.clone()).unwrap_or_default();
                 // (a trait without `mock_api` can only be observed through `Unimock: TheTrait`, which needs the feature)
-                let observable = p.mock_api || (p.target == "trait" && feature);
+                let observable = if p.target == "fn_concrete" { feature } else { p.mock_api || (p.target == "trait" && feature) };
                 let want = format!("OBS unimock_derived={} mockall_struct={}", w.unimock_emitted && active && observable, w.mockall_emitted && active);
                 if obs != want {
                     ctx.violation(
@@ -345,7 +378,7 @@ fn e2_leg(ctx: &mut Ctx, points: &[Point]) -> bool {
 
 pub fn run(ctx: &mut Ctx) {
     ctx.rule = "the full lattice {entrait, entrait_export} x feature {on, off} x unimock {absent, bare, =true, =false} x mock_api {absent, present} x mockall {absent, bare, =true, =false} x export \
-                {absent, bare, =true, =false; fn/mod only} x {fn, mod, trait}: every point is expanded in-process in 3 option orders (E1, `_unimock` variants model the feature) and compiled through \
+                {absent, bare, =true, =false; fn/mod only} x {fn, mod, trait, fn with a concrete dependency}: every point is expanded in-process in 3 option orders (E1, `_unimock` variants model the feature) and compiled through \
                 the facade in 4 builds (feature x cfg(test)) with run-time probes for `Unimock: TheTrait` and the mockall struct (E2); non-trivial = points where a mock derivation is expected or an \
                 explicit `false` overrides a default - counted distinct by point"
         .into();
